@@ -880,6 +880,20 @@ def schema_doc(g, prefix=None) -> dict:
     return {"$schema": "http://json-schema.org/draft-07/schema#", "definitions": defs}
 
 
+def all_members(by_id, n) -> list[int]:
+    """members of a node and of all its (transitive) base classes, without repetition"""
+    out, seen, todo = [], set(), [n["id"]]
+    while todo:
+        i = todo.pop()
+        if i in seen or i not in by_id:
+            continue
+        seen.add(i)
+        if not by_id[i].get("root"):
+            out += [j for j in by_id[i]["members"] if j not in out]
+        todo += by_id[i]["bases"]
+    return out
+
+
 def top_level(code: str):
     """what the module binds at top level, in order: ("class", name, [bases]) and ("alias", name, target name or None);
     and the names that get a forward-reference resolution call, in order"""
@@ -1071,6 +1085,23 @@ def _use_module(ck, camp, g, kind, opts, inp, cls, res, names, pos, by_id, foote
                 f"import of the emitted module fails: {type(ex).__name__}: {str(ex)[:200]}")
         return None
     try:
+        if kind == "pydantic_v2.BaseModel":
+            # right after import, before anything is used: a class that pydantic could not build completely
+            # and whose own or INHERITED annotations name a class defined further down needed a resolution call
+            # that was not emitted. pydantic v2 repairs this lazily on first use, which would hide it below.
+            for n in g:
+                c = getattr(mod, f"M{n['id']}", None) if f"M{n['id']}" in pos else None
+                if c is None or getattr(c, "__pydantic_complete__", True) is not False:
+                    continue
+                # a class is also left incomplete when a member type is a class that was itself incomplete when this
+                # one was created (pydantic's own transitivity; no name of this class is a forward reference, no call
+                # of the generator is missing): only a class with a forward reference of its own or inherited counts
+                late = sorted(f"M{j}" for j in all_members(by_id, n) if pos.get(f"M{j}", -1) > pos[f"M{n['id']}"])
+                if late:
+                    ck.fail({**cls, "mechanism": "incomplete_after_import", "inherited_only": not any(pos.get(f"M{j}", -1) > pos[f"M{n['id']}"] for j in n["members"])}, inp,
+                            f"M{n['id']} is not completely built right after import (own or inherited members of types {late} defined further down) "
+                            f"and there is no M{n['id']}.model_rebuild(); calls emitted for {footer}; order {names}")
+                    return None
         for n in g:
             if f"M{n['id']}" not in pos:
                 continue
@@ -1078,7 +1109,8 @@ def _use_module(ck, camp, g, kind, opts, inp, cls, res, names, pos, by_id, foote
             if n.get("root"):
                 sample = []
             else:
-                sample = {f"r{j}": ([] if by_id[j].get("root") else {}) for j in set(n["members"]) if j in by_id}
+                # own AND inherited members: a subclass must be usable through the fields it inherits too
+                sample = {f"r{j}": ([] if by_id[j].get("root") else {}) for j in all_members(by_id, n) if j in by_id}
             try:
                 # every model must be usable as emitted: members that refer to other models are exercised
                 if kind == "pydantic_v2.BaseModel":
